@@ -45,17 +45,25 @@ D1Quick == LeavesQ \cup Un1(LeavesQ) \cup Bin1(OpsQ, {Ra}, {Rb, LI, LF}) \cup Bi
 AplusB == <<"B", "+", Ra, Rb>>
 AtimesB == <<"B", "*", Ra, Rb>>
 XCnt == <<"X", <<"B", "<", Cnt, LI>>>>
+(* a nested lambda under unary operators, as a call argument, inside if(), on either side of an operator, two deep *)
+XI == <<"X", Cnt>>
+LambdaPositions == { <<"U", "!", XCnt>>, <<"U", "-", XI>>, <<"B", "+", <<"U", "-", XI>>, Ra>>, <<"F", "int", <<XI>>>>, <<"F", "if", <<XCnt, LI, LI>>>>,
+                     <<"F", "if", <<Ra, XI, LI>>>>, <<"X", XI>>, <<"X", <<"B", "+", XI, Cnt>>>>, <<"B", "*", XI, LI>>, <<"B", "<", LI, XI>>, <<"B", "AND", XCnt, XCnt>> }
+(* evaluation order: an operand that fails when it holds the first count() of the expression, a counting operand on the other side *)
+FirstFails == <<"B", "/", LI, <<"B", "-", Cnt, LI>>>>
+OrderASTs == { <<"B", "*", FirstFails, <<"F", "duration", <<Cnt, LD>>>>>>, <<"B", "*", <<"F", "duration", <<Cnt, LD>>>>, FirstFails>>, <<"B", "+", FirstFails, Cnt>>, <<"B", "<", FirstFails, Cnt>>, <<"B", "*", Cnt, FirstFails>>, <<"B", "*", <<"B", "+", Cnt, LI>>, Cnt>>,
+               <<"F", "if", <<<<"B", "<", FirstFails, LI>>, Cnt, LI>>>> }
 D2Quick == { <<"B", "+", AplusB, Rb>>, <<"B", "<", AtimesB, LI>>, <<"U", "-", AtimesB>>, <<"F", "int", <<AplusB>>>>,
              <<"B", "+", <<"B", "*", Cnt, Rb>>, LI>>, <<"B", "AND", <<"U", "!", Ra>>, Rb>>, <<"B", "AND", <<"U", "!", Ra>>, LB>>,
              <<"B", "AND", XCnt, Ra>>, <<"B", "==", XCnt, LB>>, <<"X", <<"B", "+", Cnt, Ra>>>>,
              <<"F", "if", <<Ra, Cnt, LI>>>>,
              <<"B", "AND", Ra, <<"B", "<", Cnt, LI>>>>, <<"B", "OR", Ra, <<"B", "<", Cnt, LI>>>> }     \* short circuit over a stateful operand
-MCASTsQuick == D1Quick \cup D2Quick
+MCASTsQuick == D1Quick \cup D2Quick \cup LambdaPositions \cup OrderASTs
 (* thorough: every depth <= 1 AST over the reduced operator set, and every depth-2 AST built from an inner     *)
 (* binary/unary node over the references and an outer operator, unary, call, if() or nested lambda              *)
 D2Thorough == D2({"+", "<", "AND"}, Bin1({"+", "*", "/", "<"}, {Ra}, {Rb}) \cup Bin1({"*", "<"}, {Cnt}, {Rb})
                                     \cup { <<"U", "!", Ra>>, <<"U", "-", Ra>>, <<"F", "float", <<Ra>>>> }, {Rb, LI})
-MCASTsThorough == D1(OpsQ, LeavesQ, FunsQ) \cup D2Thorough \cup D2Quick
+MCASTsThorough == D1(OpsQ, LeavesQ, FunsQ) \cup D2Thorough \cup D2Quick \cup LambdaPositions \cup OrderASTs
 (* the widest sets (not registered: hours) *)
 MCASTsWide == D1(OpsT, LeavesT, FunsT) \cup D2(OpsT, InnerT, {Rb, LI, LF, LB, LD})
 
